@@ -28,6 +28,8 @@ type FuncReport struct {
 	NObl      int      `json:"obligations"`
 	Inlined   []string `json:"inlined_callees,omitempty"`
 	Uses      []string `json:"contracts_used,omitempty"`
+	// module functions called without a contract (everything is havocked at such a call)
+	NoContract []string `json:"calls_without_contract,omitempty"`
 }
 
 type target struct {
@@ -219,6 +221,25 @@ func (p *Program) verifyFunc(t *target) (vc *VC, rep *FuncReport) {
 	for _, rq := range c.Requires {
 		x.assume(st, pre.boolean(rq.Expr))
 	}
+	// lemmas used: each is proved on its own (possibly over 64-bit vectors) and assumed here; in Int mode this
+	// gives the uninterpreted bit operations the instances the proof needs
+	for _, ln := range c.UsesLemmas {
+		var lem *Lemma
+		for _, l := range p.specs.Lemmas {
+			if l.Name == ln && (l.PkgPath == c.PkgPath || lem == nil) {
+				lem = l
+			}
+		}
+		if lem == nil {
+			panic(unsupported("uses: no lemma " + ln))
+		}
+		if !lem.Axiom && len(lem.Props) == 0 {
+			panic(unsupported("uses: lemma " + ln + " is not claimed by any property, hence never proved"))
+		}
+		lenv := x.specEnv(st, x.old, nil, lem.PkgPath)
+		x.assume(st, lenv.boolean(lem.Expr))
+		vc.note("lemma " + ln + " assumed at entry (proved separately)")
+	}
 	// interface contracts this function implements: their requires are assumed, their ensures proved
 	type implBinding struct {
 		ic    *Contract
@@ -405,6 +426,12 @@ func (p *Program) verifyFunc(t *target) (vc *VC, rep *FuncReport) {
 		}
 	}
 	sort.Strings(rep.Uses)
+	for k := range p.noContract {
+		if strings.HasPrefix(k, rep.Name+" => ") {
+			rep.NoContract = append(rep.NoContract, strings.TrimPrefix(k, rep.Name+" => "))
+		}
+	}
+	sort.Strings(rep.NoContract)
 	rep.NObl = 0
 	for _, o := range vc.obls {
 		if !o.Vacuity {
